@@ -374,6 +374,15 @@ func widenSpaces(rng *rand.Rand, line string) string {
 // decorateLayout returns a whitespace variant of src: blank runs lengthened
 // (never created or removed), horizontal white space widened.
 func whitespaceVariant(rng *rand.Rand, src string) string {
+	tail := ""
+	if i := strings.LastIndex(src, "\n"); !strings.HasSuffix(src, "\n") && strings.TrimSpace(src[i+1:]) == "" {
+		// blanks after the last newline are not a line (no NL token follows): keep them out of the blank-run game
+		tail = src[i+1:]
+		src = src[:i+1]
+	}
+	if src == "" {
+		return tail
+	}
 	lines := strings.Split(strings.TrimSuffix(src, "\n"), "\n")
 	var out []string
 	for _, ln := range lines {
@@ -387,7 +396,7 @@ func whitespaceVariant(rng *rand.Rand, src string) string {
 		}
 		out = append(out, widenSpaces(rng, ln))
 	}
-	return strings.Join(out, "\n") + "\n"
+	return strings.Join(out, "\n") + "\n" + tail
 }
 
 // multilineLiterals rewrites, with probability p per literal, the top-level
